@@ -6,7 +6,7 @@ snapshots of the tree. Derived facts (partial / missing / non-default / pure-sym
 deterministic) of every node are compared with those of a freshly built deep copy.
 """
 import pyglove as pg
-from engine.chx import Assume, Violation, reach
+from engine.chx import Assume, Violation, reach, untraced, concretize
 from harness import treeops as T
 
 PROPERTY = 'C09'
@@ -46,7 +46,7 @@ def t_events(v):
   l = pg.List([pg.Dict(q=v[2]), v[3], Quiet(q=pg.Dict(x=v[0]), r=v[1])], onchange_callback=_cb(h2))
   h2[0] = l
   inner = Rec(n=v[0], d=pg.Dict(z=v[1]), l=pg.List([v[2]]))
-  plain = pg.Dict(p=pg.List([pg.Dict(k=v[3]), v[2], pg.Dict(k2=v[0])]), o=Quiet(q=v[0], r=pg.List([v[1]])))
+  plain = pg.Dict(p=pg.List([pg.Dict(k=v[3]), v[2], pg.Dict(k2=v[0])]), o=Quiet(q=v[0], r=pg.List([v[1], v[2]])))
   root = Rec(d=d, l=l, n=v[3], c=pg.Dict(inner=inner, plain=plain))
   return root
 
@@ -123,7 +123,16 @@ SHIFTING = {'insert', 'delitem', 'pop', 'remove', 'set_slice', 'del_slice', 'reb
 
 
 def h_events(params, v0, v1, v2, v3, t, i, vk, w, w2, mode):
-  """mode: 0 = notifications on, 1 = notify_on_change(False) scope, 2 = skip_notification (rebind only)."""
+  """All selectors are solver decisions made concrete by branching; the mutation and the oracle then run natively
+  (leaf values play no role in notification: fixed constants, w also ranging over an already present value)."""
+  t, i, vk, mode = concretize(t, range(0, 18)), concretize(i, range(0, 5)), concretize(vk, (0, 1)), concretize(mode, (0, 1))
+  w = concretize(w, (1, 50)) if params['op'] in ('setitem', 'rebind_key', 'update') else 50
+  with untraced():
+    return _events_body(params, 1, 2, 3, 4, t, i, vk, w, 60, mode)
+
+
+def _events_body(params, v0, v1, v2, v3, t, i, vk, w, w2, mode):
+  """mode: 0 = notifications on, 1 = notify_on_change(False) scope."""
   op = params['op']
   root = t_events((v0, v1, v2, v3))
   nodes = nodes_of(root)
@@ -246,6 +255,12 @@ def _facts(n):
 
 
 def h_fresh(params, v0, v1, v2, v3, t, i, vk, w, w2, mode):
+  t, i, vk, mode = concretize(t, range(0, 11)), concretize(i, range(-1, 6)), concretize(vk, (0, 1, 2, 3)), concretize(mode, (0, 1))
+  with untraced():
+    return _fresh_body(params, 1, 2, 3, 4, t, i, vk, 50, 60, mode)
+
+
+def _fresh_body(params, v0, v1, v2, v3, t, i, vk, w, w2, mode):
   op = params['op']
   root = t_fresh((v0, v1, v2, v3))
   nodes = nodes_of(root)
@@ -299,8 +314,8 @@ QUICK_SKIP = {'rebind_kwargs', 'rebind_fn', 'remove', 'del_slice', 'rebind_missi
 def shards(tier, seed):
   quick = tier == 'quick'
   out = []
-  b = 40 if quick else 400
-  ops = EVENT_OPS if not quick else [o for o in EVENT_OPS if o not in QUICK_SKIP]
+  b = 60 if quick else 400
+  ops = EVENT_OPS
   for op in ops:
     out.append(dict(name=f'events:{op}', fn='h_events', params=dict(op=op), args=_ARGS, budget_s=b, per_path_s=15))
     out.append(dict(name=f'fresh:{op}', fn='h_fresh', params=dict(op=op), args=_ARGS, budget_s=b, per_path_s=15))
